@@ -11,7 +11,7 @@
 From Coq Require Import String ZArith QArith Bool Arith List Permutation.
 From GT Require Import Base.UTree Spec.Obs Spec.GenShape Spec.Counting Model.Reroot Model.Rand2 Model.TreeGen
      Proofs.TreeGenNames Proofs.TreeGenMain Proofs.TreeGenLens Proofs.TreeGenCat Proofs.TreeGenBal
-     Proofs.TreeGenTopo Proofs.TreeGenTopo2.
+     Proofs.TreeGenBal2 Proofs.TreeGenTopo Proofs.TreeGenTopo2.
 Import ListNotations.
 Local Close Scope Q_scope.
 
@@ -104,6 +104,18 @@ Theorem C16_balanced_unrooted :
               balanced false d t = true /\ leaves t = map tip_name (seq 0 (2 ^ d)).
 Proof. exact balanced_tree_unrooted_ok. Qed.
 Print Assumptions C16_balanced_unrooted.
+
+Theorem C16_balanced_rooted_lengths :
+  forall d ls t, 1 <= d -> Forall nonneg ls -> length ls = plan_floats (balanced_plan d) ->
+    balanced_tree d true ls = GOk t -> lens_nonneg t = true.
+Proof. exact balanced_tree_rooted_lens. Qed.
+Print Assumptions C16_balanced_rooted_lengths.
+
+Theorem C16_balanced_unrooted_lengths :
+  forall d ls t, 2 <= d -> Forall nonneg ls -> length ls = plan_floats (balanced_plan d) ->
+    balanced_tree d false ls = GOk t -> lens_nonneg t = true.
+Proof. exact balanced_tree_unrooted_lens. Qed.
+Print Assumptions C16_balanced_unrooted_lengths.
 
 Theorem C16_balanced_below_minimum :
   forall rooted ls, exists msg, balanced_tree 0 rooted ls = GErr msg.
